@@ -53,7 +53,8 @@ def instrument_hl7apy():
                 K.mark_touch({f.__code__})
     # every function of the two modules that own process-wide state is a touch point, so that
     # functions added there later (caches, memos) are biased too without being listed by name
-    for modname in ('hl7apy', 'hl7apy.factories'):
+    for modname in ('hl7apy', 'hl7apy.factories', 'hl7apy.utils'):
+        # (utils: the date/time helpers every factory call goes through -- where a memo would be put)
         codes = K.code_objects_of(importlib.import_module(modname), EXCLUDE)
         K.mark_touch(codes)
         K.mark_strong(codes)
